@@ -1,13 +1,27 @@
 -------------------------------- MODULE BoxEq --------------------------------
-(* Tolerance equality on coordinate vectors; unit = EPS / 10.                  *)
+(* Tolerance equality of boxes (property C19).  A box is a vector of coordinates *)
+(*   BoundingBox    : <<left, top, width, height, confidence>>                    *)
+(*   Universal2DBox : <<xc, yc, angle, aspect, height>>                           *)
+(* in integer units of EPS / 10 (EPS = 1e-5 in the crate, so the unit is 1e-6).  *)
+(* Two boxes are equal iff every coordinate differs by less than EPS.  The        *)
+(* verdict is REQUIRED only outside a band around EPS (|d| <= 0.9 EPS: equal,     *)
+(* |d| >= 1.1 EPS: unequal); inside the band it is left open (f32 rounding).      *)
 EXTENDS Integers, Sequences
 Eps == 10
-Abs(a) == IF a < 0 THEN -a ELSE a
-Eq(u, v) == \A i \in DOMAIN u : Abs(u[i] - v[i]) < Eps
+Mag(a) == IF a < 0 THEN -a ELSE a
+Eq(u, v) == \A i \in DOMAIN u : Mag(u[i] - v[i]) < Eps
 Bump(u, i, d) == [u EXCEPT ![i] = @ + d]
 Deltas == {0, 5, -5, 9, -9, 11, -11, 20, -20, 1000, -1000}
 (* required verdict for a pair differing in exactly one coordinate by d (a band around EPS is left open) *)
-Required(d) == IF Abs(d) <= 9 THEN "equal" ELSE IF Abs(d) >= 11 THEN "unequal" ELSE "open"
-Symmetric(u, v) == Eq(u, v) = Eq(v, u)
-Reflexive(u) == Eq(u, u)
+Required(d) == IF Mag(d) <= 9 THEN "equal" ELSE IF Mag(d) >= 11 THEN "unequal" ELSE "open"
+(* ... and for two arbitrary vectors *)
+RequiredVec(u, v) == IF \A i \in DOMAIN u : Mag(u[i] - v[i]) <= 9 THEN "equal"
+                     ELSE IF \E i \in DOMAIN u : Mag(u[i] - v[i]) >= 11 THEN "unequal" ELSE "open"
+(* ---- facts ---- *)
+EqSymmetric(u, v) == Eq(u, v) = Eq(v, u)
+EqReflexive(u) == Eq(u, u)
+VerdictAgrees(u, v) == /\ (RequiredVec(u, v) = "equal" => Eq(u, v)) /\ (RequiredVec(u, v) = "unequal" => ~Eq(u, v))
+                       /\ RequiredVec(u, v) = RequiredVec(v, u)
+OneCoordinate(u, i, d) == RequiredVec(u, Bump(u, i, d)) = Required(d)
+EqFacts(u, v) == EqSymmetric(u, v) /\ EqReflexive(u) /\ EqReflexive(v) /\ VerdictAgrees(u, v)
 =============================================================================
